@@ -8,7 +8,7 @@ import (
 )
 
 func init() {
-	Register(&Profile{Name: "cli-exit", Prop: "C20", Weight: 10, Quick: 640, Thorough: 12000, Fn: cliExit})
+	Register(&Profile{Name: "cli-exit", Prop: "C20", Weight: 10, Quick: 480, Thorough: 12000, Fn: cliExit})
 	SetMeta("C20", &Meta{
 		Level: "exploration",
 		Rule: "the par binary built from the current tree is run as a subprocess on a tmpfs scratch set: create (checked: status 0, set exists, verify says clean), then a state from {intact, repairable, unrepairable, no parity left, damaged index, missing index} is produced by whole-file deletion/garbage (so needed/possible is decided by the reference model without ambiguity), then verify and repair with command abbreviations, -g/-s/-c/-a/-doublecheck flags, invoked from the set's directory, its parent or an unrelated directory with relative or absolute spellings; plus usage errors. Oracle: the expected-status table of DESIGN.md section 14; status 0 implies the operation's postcondition on disk; a Go panic trace on stderr is a violation whatever the status. Non-trivial: verify and repair were both run in a non-intact state or a usage error was exercised; distinct by (format, state, invocation class, flags, statuses).",
@@ -60,6 +60,9 @@ func cliExit(r *Run) {
 	}
 	check := func(res CLIResult, what string, want func(int) bool, wantDesc string, state string) {
 		out := strings.Replace(res.Stdout+res.Stderr, rw.Root, "", -1)
+		if res.Status == -2 {
+			r.Violate("hang", "%s in state %s did not terminate within 60 s", what, state)
+		}
 		if hasPanicTrace(res.Stderr) || hasPanicTrace(res.Stdout) {
 			r.Violate("exit-status", "%s in state %s: par crashed with a Go panic (status %d): %s", what, state, res.Status, lastLines(out, 8))
 		}
@@ -127,6 +130,37 @@ func cliExit(r *Run) {
 	}
 	if len(w.Created) < 2 || w.Created[w.Index] == nil {
 		r.Violate("exit-status", "par create exited 0 but the set does not exist (%d archive files, index present: %v)", len(w.Created), w.Created[w.Index] != nil)
+	}
+	// invalid option values are failures of some kind: never status 0,
+	// never a crash, and nothing is written
+	if t.Bool(1, 6, "bad-option-value") {
+		cases := [][]string{{"create", "-s", "6", "bad" + ext, w.Files[0].Name}, {"create", "-s", "-4", "bad" + ext, w.Files[0].Name}, {"-g", "-3", "create", "bad" + ext, w.Files[0].Name}, {"create", "-c", "-1", "bad" + ext, w.Files[0].Name}, {"create", "-c", "100000", "bad" + ext, w.Files[0].Name}}
+		k := t.Draw(len(cases), "bad-option")
+		if par1Set && k < 2 {
+			k = 3
+		}
+		args := cases[k]
+		res := r.RunPar(setDir, args...)
+		out := strings.Replace(res.Stdout+res.Stderr, rw.Root, "", -1)
+		if hasPanicTrace(res.Stderr) || hasPanicTrace(res.Stdout) {
+			r.Violate("exit-status", "par %v crashed with a Go panic (status %d): %s", args, res.Status, lastLines(out, 6))
+		}
+		// negative/zero counts fall back to defaults by documented behaviour, so status 0 is allowed when a set was really written
+		if res.Status == 0 {
+			if _, err := os.Stat(filepath.Join(setDir, "bad"+ext)); err != nil {
+				r.Violate("exit-status", "par %v exited 0 but wrote no set", args)
+			}
+		}
+		for _, n := range []string{"bad.par2", "bad.par"} {
+			os.Remove(filepath.Join(setDir, n))
+		}
+		ents, _ := os.ReadDir(setDir)
+		for _, e := range ents {
+			if strings.HasPrefix(e.Name(), "bad.") {
+				os.Remove(filepath.Join(setDir, e.Name()))
+			}
+		}
+		r.Probe("bad-option-value")
 	}
 	// unknown extension / missing input
 	if t.Bool(1, 5, "create-bad") {
